@@ -62,6 +62,12 @@ func H_C20_Sequence() {
 			vAssert(m.Shutdown() == nil, "c20.seq.shutdown-nil")
 			vAssert(f.tr.shut == 1, "c20.seq.transport-shut-once")
 			vAssert(m.hasShutdown(), "c20.seq.flag")
+			vAssert(!f.tr.flagAtShutdown, "c20.seq.transport-closed-before-flag")
+			select {
+			case <-m.shutdownCh:
+			default:
+				vAssert(false, "c20.seq.shutdown-channel-closed")
+			}
 			shut = true
 		case 2:
 			// time passes and the probe cursor wraps: dead / left records are reaped
